@@ -12,7 +12,7 @@ function, method (with receiver kind), package variable and constant, its numeri
 package variables it reads and its writes through parameters or the receiver (including in-place
 `sort.*`/`copy`/`append`). The entries behind the digest are in `shape_expected.txt` and in a
 comment of the generated file. -/
-def stateC19 : List (String × String) := [("globals:graph", ""), ("globals:graphalg", ""), ("globalwrites:graph", ""), ("globalwrites:graphalg", ""), ("fields:graphalg.DomTree", "idom:[]int children:[][]int"), ("shape:C19", "n=25 fnv64a=5623f7caeec1415c")]
+def stateC19 : List (String × String) := [("globals:graph", ""), ("globals:graphalg", ""), ("globalwrites:graph", ""), ("globalwrites:graphalg", ""), ("fields:graphalg.DomTree", "idom:[]int children:[][]int"), ("shape:C19", "n=25 fnv64a=5786b74b7c11dcf6")]
 
 /-- the source has exactly the package-level variables, writers and struct fields the model accounts for -/
 theorem state_C19 : holdsAll stateC19 = true := by decide +kernel
